@@ -269,6 +269,8 @@ class SimTransport(asyncio.Transport):
         self.bytes_in = 0
         self.eof_in = False
         self.rst_sent = False
+        self.write_paused_at = None   # since when the protocol is told to stop writing (peer not reading)
+        self.last_data_in_at = None
         self._extra = {}
         self._lost_scheduled = False
 
@@ -333,6 +335,7 @@ class SimTransport(asyncio.Transport):
         self.out.pump()
         if not self.proto_write_paused and len(self.out.sendbuf) > self.high:
             self.proto_write_paused = True
+            self.write_paused_at = self.loop.time()
             self.protocol.pause_writing()
 
     def writelines(self, lines):
@@ -378,6 +381,7 @@ class SimTransport(asyncio.Transport):
     def _after_pump(self):
         if self.proto_write_paused and len(self.out.sendbuf) <= self.low and self.state != CLOSED:
             self.proto_write_paused = False
+            self.write_paused_at = None
             if self.protocol is not None:
                 self.protocol.resume_writing()
         if self.state == CLOSING and not self.out.sendbuf and self.out.fin_sent:
@@ -430,6 +434,7 @@ class SimTransport(asyncio.Transport):
     def _deliver(self, kind, data):
         if kind == "DATA":
             self.bytes_in += len(data)
+            self.last_data_in_at = self.loop.time()
             self.protocol.data_received(data)
         elif kind == "FIN":
             self.eof_in = True
